@@ -29,7 +29,7 @@ func FullAlphabet() []Tok {
 	out := []Tok{
 		Term(Word("a")), Term(Word("b")), Term(Int(5)), Term(Int(-3)), Term(IntSrc("010")), Term(Float("1.5")),
 		Term(Quoted("q r")), Term(Quoted("")), Term(Wild("w*")), Term(Wild("?")), Term(Wild("*")),
-		Term(Regexp("r x")), Term(EscapedWord("x:y")), RawTerm("'s'"), Term(Quoted("w*")), Term(Quoted("/r/")), Term(EscapedWord("a*b")), RawTerm("'s t'"), Term(EscapedWord("x\\")),
+		Term(Regexp("r x")), Term(EscapedWord("x:y")), RawTerm(`'"s'`), Term(Quoted("w*")), Term(Quoted("/r/")), Term(EscapedWord("a*b")), RawTerm("'s t'"), Term(EscapedWord("x\\")),
 	}
 	return append(out, Structural()...)
 }
